@@ -8,12 +8,24 @@ from harness.common import Run
 from harness.props import c06_api as A
 from harness.props import c06_pipeline as P
 from harness.props import c06_saem as S
+from harness.props import c06_src as SRC
+from harness.translate import c06_weighted
 
 META = dict(
-    technique="Coq theorems (all atoms incl. NaN/inf, all shapes, all sets of summed axes, all padding amounts, all trees of API "
+    technique="Source-level tie (T1): a fail-closed python-ast translator regenerates 26 function bodies of the weighted-tensor layer, of "
+              "compute_std_from_variance and of the two noise update rules as programs of a small language (coq/gen/GenC06.v); Coq proves for all "
+              "inputs that each regenerated body computes the hand-written model function, and re-states C06 over the regenerated bodies.  "
+              "Coq theorems (all atoms incl. NaN/inf, all shapes, all sets of summed axes, all padding amounts, all trees of API "
               "operations) on a hand-written executable model of WeightedTensor / the observation layer; the model is run inside Coq "
               "(vm_compute) on the operation trees the real API just executed and compared exactly; metamorphic oracles on the real pipeline",
-    level_text="Unbounded theorems: weighted sums / sums of weights ignore everything under a weight 0 (any axes, any fill value); padding "
+    level_text="Every regenerated body = the model function, for all inputs (C06_src_apply_operation: the whole case table of the weights; "
+               "C06_src_readings / _maps / _unary / _utils / _signatures / _noise_rules); C06 over the translated source "
+               "(C06_src_tree_ignores_masked: for every tree of operations and every masked reading executed through the regenerated bodies, what sits "
+               "under weight 0 never reaches the result); compute_std_from_variance refuses exactly when an entry is < tol and otherwise returns the "
+               "square root of the same tensor, defined for every non-NaN entry (C06_src_std_guard, _std_sqrt_defined; a NaN variance passes the "
+               "comparison: C06_src_std_nan_not_refused); the ADOPTED noise estimate / its refusal uses observed entries only, before and after "
+               "burn-in (C06_noise_std_observed_only*), and is the translated rule body applied to the statistics (C06_noise_std_is_rule).  "
+               "Unbounded theorems: weighted sums / sums of weights ignore everything under a weight 0 (any axes, any fill value); padding "
                "with any content is invisible to every sum over the padded axis; agreement on observed positions is closed under every "
                "tree of binary (weight propagation/expansion, error on differing weights), unary, map, index_put, view, expand operations; "
                "per-individual attachment of any point-wise nll independent of masked y, masked model values and padding; counts = numbers of "
@@ -24,8 +36,11 @@ META = dict(
                "blend v*(1-e) + e*new of the memory phase (on y_x_model a blend of two WeightedTensors, which keeps the weights of y), for every number "
                "of memory iterations and every coefficients (induction over the iterations).  (The former scalar rule summed model^2 without "
                "the mask — finding F3, repaired upstream by 3d244df; the check reports it as a violation with a 2x1x2 witness if it comes back.)",
-    level_note="Trusted: Coq kernel (no axioms: every theorem is closed under the global context); the hand-written model is tied to the code "
-               "by exact differential execution (not regenerated): torch kernels (broadcasting, sum, masked_fill, index_put, view/expand) are "
+    level_note="Trusted: Coq kernel (no axioms: every theorem is closed under the global context); the translator "
+               "harness/translate/c06_weighted.py (prints the ast node for node, interprets nothing, fails closed) and the meaning given to the "
+               "primitives in Masked/Source.v (torch kernels = the tensor operations of Weighted.v; a call of a sibling function = the hand-written "
+               "function, whose own body is tied; acyclic call graph checked); clone is the identity, sqrt symbolic, **kws carries dim only.  The "
+               "hand-written model is ALSO still tied to the code by exact differential execution: torch kernels (broadcasting, sum, masked_fill, index_put, view/expand) are "
                "modelled and checked by that execution, not verified; atoms have no rounding/overflow/signed zero (the tie keeps inputs "
                "exactly representable); the two noise update rules are mirrored by hand and tied on every run: the real statistics + update rule "
                "(wiring of with_noise_std_as_model_parameter, variance recorded at compute_std_from_variance) against noise_var_scalar / "
@@ -33,7 +48,8 @@ META = dict(
                "non-finite entries identical); the memory phase the same way: the real TensorMcmcSaemAlgorithm._maximization_step driven on a real State "
                "over the real variables of the Gaussian observation model, the stored statistics (weights of y_x_model, its values where observed, "
                "model_x_model) and the variance after EACH step against Masked/Saem.v inside Coq (burn_in_step_power 1 and iterations "
-               "n_burn_in_iter + 2^j: exact); the positivity check and the square root after the variance are not modelled; "
+               "n_burn_in_iter + 2^j: exact); the positivity check and the square root after the variance are now modelled (std_from_variance) and tied "
+               "by T1 + two T2 stages (std-tie on directed variances, noise-std-tie on the outcome of the real update rules); "
                "put_data_variables weights tied the same way; model_with_sources mirrored by hand and exercised by the metamorphic "
                "oracles on real fits of every shipped kind.",
     design_ref="DESIGN.md section 4 C06",
@@ -44,7 +60,28 @@ OBLIGATIONS = [
     "C06_observed_closed", "C06_attach", "C06_attach_padding", "C06_counts", "C06_counts_ignore_values",
     "C06_model_zero_on_padding", "C06_model_ignores_masked_times", "C06_noise_observed_only", "C06_noise_ingredients_observed_only", "C06_noise_padding",
     "C06_noise_observed_only_after_burn_in", "C06_saem_statistics_carry_weights", "C06_noise_saem_no_memory",
+    # source-level tie (T1): the function bodies regenerated from the current source (coq/gen/GenC06.v)
+    "C06_src_apply_operation", "C06_src_readings", "C06_src_maps", "C06_src_utils", "C06_src_signatures",
+    "C06_src_tree_ignores_masked", "C06_src_observed_closed", "C06_src_std_guard", "C06_src_std_sqrt_defined",
+    "C06_src_std_nan_not_refused", "C06_src_unary", "C06_noise_std_observed_only", "C06_noise_std_observed_only_after_burn_in",
+    "C06_src_noise_rules", "C06_noise_std_is_rule", "C06_noise_std_saem_is_rule",
 ]
+
+
+def translate(run: Run) -> bool:
+    """T1: regenerate coq/gen/GenC06.v (every function body of the weighted-tensor layer + compute_std_from_variance as a
+    source-level program) from $VERIF_REPO; fail closed."""
+    try:
+        ok = c06_weighted.translate(run)
+    except Exception as e:  # noqa - an AST shape the translator has never met must not stop the search for a failing input
+        import traceback
+        run.broken("translate:GenC06", f"translator crashed: {type(e).__name__}: {e}\n{traceback.format_exc()[-800:]}", kind="broken-translation")
+        ok = False
+    if not ok:
+        # never leave the programs of an earlier run behind: the proofs must not be checked against a stale translation
+        run.gen("GenC06", "(* the translation of this run FAILED (harness/translate/c06_weighted.py): no program *)\n")
+    return ok
+
 
 HDR = ("From Coq Require Import List NArith ZArith QArith Bool.\nFrom Leaspy Require Import Base.Atoms Masked.Weighted.\n"
        "Import ListNotations.\nLocal Close Scope Q_scope.\n")
@@ -91,7 +128,9 @@ def api_tie(run: Run, n: int):
 
 def main(run: Run):
     thorough = run.tier == "thorough"
+    translate(run)
     run.prove("C06", OBLIGATIONS)
+    run.log(f"translated and proved {len(run.discharged)}/{len(OBLIGATIONS)} obligations")
     run.rule = ("(1) random trees (depth 0-3) over the real WeightedTensor API: constructors incl. refused ones, all arithmetic/comparison "
                 "dunders incl. reflected ones, neg/abs/pow, map and the unary-operator factory with fill values, index_put, view/"
                 "unsqueeze_right, expand, then one query among raw/filled/weighted_value/wsum/sum/sum_dim/wsum_dim with dim and but_dim "
@@ -108,7 +147,10 @@ def main(run: Run):
                 "State and through Masked/Saem.v; non-trivial = a model tensor of a memory step is not 0 at some missing entry. (5) real fits of every "
                 "shipped kind x scalar/diagonal noise, n_iter 10 with n_burn_in_iter 3, cohort with partially observed visits: noise_std^2 recomputed "
                 "from scratch (explicit dataset mask) at every iteration; the same fits with {NaN, 1e30} under the mask bit-identical "
-                "(non-trivial = an iteration with memory on a cohort with missing entries on observed visits).")
+                "(non-trivial = an iteration with memory on a cohort with missing entries on observed visits). (6) compute_std_from_variance on "
+                "float32 / float64 tensors of 1-5 entries from {regular, tiny, huge, +-inf, NaN, 0, negative, exactly tol, one ulp around tol} with tol in "
+                "{default, 1e-5, 0.5, 0, 1e-8, -1, 2}; non-trivial = refused or an entry small / negative. (7) the outcome (adopted std / refusal) of the "
+                "real noise update rules on the inputs of (3), a quarter of them fitted exactly (variance 0); non-trivial = a missing entry.")
     run.explanation = ("Theorems are about the executable model in coq/theories/Masked; the model is tied to the current source by running the same "
                        "operation trees through leaspy.utils.weighted_tensor and through the model inside Coq with exact comparison, and the "
                        "pipeline-level statements by the same kind of differential execution (put_data_variables weights, the two noise update rules) and "
@@ -116,16 +158,22 @@ def main(run: Run):
     run.assumptions += ["atoms have no rounding: the differential inputs are kept exactly representable in float64 (noise rules: every operation but the "
                         "final division by the count is exact on the generated inputs; that division is compared up to 2^-52 relative, inside Coq)",
                         "torch kernels are modelled (broadcast, sum, masked_fill, index_put, view, expand), checked by execution only"]
+    run.trusted.append("translator harness/translate/c06_weighted.py (python ast -> coq/gen/GenC06.v, fail closed) and the primitive semantics of "
+                       "coq/theories/Masked/Source.v")
     run.trusted.append("hand-written model coq/theories/Masked/{Weighted,Pipeline}.v tied by exact differential execution (harness/props/c06_api.py; noise rules and put_data_variables: harness/props/c06_pipeline.py; memory phase Masked/Saem.v: harness/props/c06_saem.py)")
     api_tie(run, 50000 if thorough else 3000)
+    run.log("api tie done")
     # each stage on its own: a tie that no longer runs must not stop the search for a failing input on the real pipeline
-    for stage, fn in (("noise-tie", lambda: P.noise_tie(run, 4000 if thorough else 400)),
+    for stage, fn in (("std-tie", lambda: SRC.std_tie(run, 6000 if thorough else 600)),
+                      ("noise-std-tie", lambda: SRC.noise_std_tie(run, 2000 if thorough else 200)),
+                      ("noise-tie", lambda: P.noise_tie(run, 4000 if thorough else 400)),
                       ("saem-tie", lambda: S.saem_tie(run, 3000 if thorough else 300)),
                       ("put-data-tie", lambda: P.put_data_tie(run, 400 if thorough else 60)),
                       ("saem-oracle", lambda: S.saem_oracle(run, thorough)),
                       ("pipeline-oracle", lambda: P.run_oracle(run, thorough))):
         try:
             fn()
+            run.log(f"{stage} done")
         except Exception as e:  # noqa: BLE001
             import traceback
             run.broken(f"oracle-crashed:{stage}", f"{type(e).__name__}: {e}\n{traceback.format_exc()[-1500:]}", kind="broken-correspondence")
@@ -147,6 +195,20 @@ def replay(run: Run, path: str):
         bad = run.vm_bad_indices("replay", HDR, "list lit * expr * query * outcome", [A.coq_case(c, res)], "check_case") if res[0] != "X" else [0]
         print("REPLAY", "FAILS (model disagrees)" if bad else "passes")
         return 1 if bad else 0
+    if sc == "std":
+        SRC.std_tie(run, 0, only=[inp["case"]])
+        for f in run._fails:
+            print("FAIL", f["signature"], f["what"], "observed:", f.get("observed"))
+        fails = bool(run._fails or run._known_hit or run._broken)
+        print("REPLAY", "FAILS" if fails else "passes")
+        return 1 if fails else 0
+    if sc == "noise-std-tie":
+        SRC.noise_std_tie(run, 0, only=[inp])
+        for f in run._fails:
+            print("FAIL", f["signature"], f["what"], "observed:", f.get("observed"))
+        fails = bool(run._fails or run._known_hit or run._broken)
+        print("REPLAY", "FAILS" if fails else "passes")
+        return 1 if fails else 0
     if sc in ("witness", "noise-tie"):
         v, m, mod = P.noise_case_tensors(inp)
         for diagonal in ([inp["rule"] == "diagonal"] if "rule" in inp else [False, True]):
